@@ -76,7 +76,7 @@ let () =
            (match res with
             | Bytes.Ok r' ->
               "SKIP@" ^ string_of_int (int_of_nat (TextReader.reader_position r')) ^ " " ^ show_run (drain fuel input r')
-            | Bytes.Err e -> "ERR:" ^ string_of_n e ^ " @?"
+            | Bytes.Err e -> "ERR:" ^ string_of_n e
             | _ -> crash_tag))
       | _ -> "BADCASE") in
   register "tr.skip" (skip "tr.skip");
@@ -93,6 +93,6 @@ let () =
         let r = skipn_tok r (int_of_string ntok) in
         (match TextReader.read_bytes fuel r (nat_of_int (int_of_string nb)) with
          | Bytes.Ok (b, r') -> "B:" ^ hex_of_bytes b ^ " " ^ show_run (drain fuel input r')
-         | Bytes.Err e -> "ERR:" ^ string_of_n e ^ " @?"
+         | Bytes.Err e -> "ERR:" ^ string_of_n e
          | _ -> crash_tag)
       | _ -> "BADCASE")
